@@ -311,6 +311,18 @@ func e2eRefusals(c *e2eCtx) error {
 		}, true, false},
 		{"patch-without-markers", []string{"patch"}, func(s *scenario, r *rand.Rand) bool { return true }, true, false},
 		{"clean-without-artefacts", []string{"clean"}, func(s *scenario, r *rand.Rand) bool { return true }, true, false},
+		{"clean-without-artefacts-dot-file-in-package-directory", []string{"clean"}, func(s *scenario, r *rand.Rand) bool {
+			// the user's own dot file is the only entry of the (never instrumented) tracking package directory
+			d := filepath.Join(s.dir, s.cfg.PkgPath)
+			if os.MkdirAll(d, 0o755) != nil || os.WriteFile(filepath.Join(d, ".gitignore"), []byte("goat_generated.go\n"), 0o644) != nil {
+				return false
+			}
+			if _, err := proj.Git(s.dir, 1700000200, "add", "-A"); err != nil {
+				return false
+			}
+			_, err := proj.Git(s.dir, 1700000200, "commit", "-q", "-m", "ignore the generated file")
+			return err == nil
+		}, true, false},
 		{"patch-without-markers-after-unformatted-edit", []string{"patch"}, func(s *scenario, r *rand.Rand) bool {
 			// instrumented tree, then a hand edit that is valid Go but not in go/printer layout, no marker
 			if run := proj.RunGoat(c.goat, s.dir, nil, "track"); run.Exit != 0 {
@@ -415,38 +427,39 @@ func e2eRefusals(c *e2eCtx) error {
 		over   map[string]bool
 		reason string
 	}{
-		"not-a-go-module":                              {map[string]bool{"goMod": false}, "not-go-module"},
-		"not-a-git-repository":                         {map[string]bool{"dotGit": false}, "not-git-repo"},
-		"missing-config-track":                         {map[string]bool{"configExists": false}, "config-missing"},
-		"missing-config-patch":                         {map[string]bool{"configExists": false}, "config-missing"},
-		"missing-config-clean":                         {map[string]bool{"configExists": false}, "config-missing"},
-		"invalid-granularity":                          {map[string]bool{"configValid": false}, "config-invalid"},
-		"invalid-precision":                            {map[string]bool{"configValid": false}, "config-invalid"},
-		"invalid-datatype":                             {map[string]bool{"configValid": false}, "config-invalid"},
-		"invalid-printer-mode":                         {map[string]bool{"configValid": false}, "config-invalid"},
-		"malformed-yaml":                               {map[string]bool{"configParses": false}, "config-invalid"},
-		"init-existing-config":                         {map[string]bool{}, "config-exists"},
-		"init-invalid-granularity":                     {map[string]bool{"force": true, "initFlagsValid": false}, "config-invalid"},
-		"init-invalid-precision":                       {map[string]bool{"force": true, "initFlagsValid": false}, "config-invalid"},
-		"init-invalid-datatype-nofile":                 {map[string]bool{"configExists": false, "initFlagsValid": false}, "config-invalid"},
-		"unresolvable-old-revision":                    {map[string]bool{"oldResolves": false}, "old-unresolvable"},
-		"unresolvable-new-revision":                    {map[string]bool{"newResolves": false}, "new-unresolvable"},
-		"new-revision-not-head":                        {map[string]bool{"newIsHead": false}, "new-not-head"},
-		"uncommitted-change":                           {map[string]bool{"worktreeClean": false}, "uncommitted"},
-		"staged-change":                                {map[string]bool{"worktreeClean": false}, "uncommitted"},
-		"staged-new-file":                              {map[string]bool{"worktreeClean": false}, "uncommitted"},
-		"already-instrumented":                         {map[string]bool{"generatedExists": true}, "already-instrumented"},
-		"changed-file-does-not-parse":                  {map[string]bool{"changedFilesParse": false}, "parse-error"},
-		"no-main-package":                              {map[string]bool{"hasMain": false}, "no-main"},
-		"no-main-package-patch":                        {map[string]bool{"hasMain": false}, "no-main"},
-		"nothing-to-instrument":                        {map[string]bool{"hasPoints": false}, ""},
-		"nothing-to-instrument-comments-only":          {map[string]bool{"hasPoints": false}, ""},
-		"clean-unparsable-marked-file":                 {map[string]bool{"changedFilesParse": false, "generatedExists": true}, "parse-error"},
-		"patch-unparsable-marked-file":                 {map[string]bool{"changedFilesParse": false, "generatedExists": true}, "parse-error"},
-		"patch-without-markers":                        {map[string]bool{"hasMarkers": false}, ""},
-		"patch-without-markers-after-unformatted-edit": {map[string]bool{"hasMarkers": false, "generatedExists": true}, ""},
-		"changed-file-broken-by-unterminated-tail":     {map[string]bool{"changedFilesParse": false}, "parse-error"},
-		"clean-without-artefacts":                      {map[string]bool{"hasMarkers": false}, ""},
+		"not-a-go-module":                                       {map[string]bool{"goMod": false}, "not-go-module"},
+		"not-a-git-repository":                                  {map[string]bool{"dotGit": false}, "not-git-repo"},
+		"missing-config-track":                                  {map[string]bool{"configExists": false}, "config-missing"},
+		"missing-config-patch":                                  {map[string]bool{"configExists": false}, "config-missing"},
+		"missing-config-clean":                                  {map[string]bool{"configExists": false}, "config-missing"},
+		"invalid-granularity":                                   {map[string]bool{"configValid": false}, "config-invalid"},
+		"invalid-precision":                                     {map[string]bool{"configValid": false}, "config-invalid"},
+		"invalid-datatype":                                      {map[string]bool{"configValid": false}, "config-invalid"},
+		"invalid-printer-mode":                                  {map[string]bool{"configValid": false}, "config-invalid"},
+		"malformed-yaml":                                        {map[string]bool{"configParses": false}, "config-invalid"},
+		"init-existing-config":                                  {map[string]bool{}, "config-exists"},
+		"init-invalid-granularity":                              {map[string]bool{"force": true, "initFlagsValid": false}, "config-invalid"},
+		"init-invalid-precision":                                {map[string]bool{"force": true, "initFlagsValid": false}, "config-invalid"},
+		"init-invalid-datatype-nofile":                          {map[string]bool{"configExists": false, "initFlagsValid": false}, "config-invalid"},
+		"unresolvable-old-revision":                             {map[string]bool{"oldResolves": false}, "old-unresolvable"},
+		"unresolvable-new-revision":                             {map[string]bool{"newResolves": false}, "new-unresolvable"},
+		"new-revision-not-head":                                 {map[string]bool{"newIsHead": false}, "new-not-head"},
+		"uncommitted-change":                                    {map[string]bool{"worktreeClean": false}, "uncommitted"},
+		"staged-change":                                         {map[string]bool{"worktreeClean": false}, "uncommitted"},
+		"staged-new-file":                                       {map[string]bool{"worktreeClean": false}, "uncommitted"},
+		"already-instrumented":                                  {map[string]bool{"generatedExists": true}, "already-instrumented"},
+		"changed-file-does-not-parse":                           {map[string]bool{"changedFilesParse": false}, "parse-error"},
+		"no-main-package":                                       {map[string]bool{"hasMain": false}, "no-main"},
+		"no-main-package-patch":                                 {map[string]bool{"hasMain": false}, "no-main"},
+		"nothing-to-instrument":                                 {map[string]bool{"hasPoints": false}, ""},
+		"nothing-to-instrument-comments-only":                   {map[string]bool{"hasPoints": false}, ""},
+		"clean-unparsable-marked-file":                          {map[string]bool{"changedFilesParse": false, "generatedExists": true}, "parse-error"},
+		"patch-unparsable-marked-file":                          {map[string]bool{"changedFilesParse": false, "generatedExists": true}, "parse-error"},
+		"patch-without-markers":                                 {map[string]bool{"hasMarkers": false}, ""},
+		"patch-without-markers-after-unformatted-edit":          {map[string]bool{"hasMarkers": false, "generatedExists": true}, ""},
+		"changed-file-broken-by-unterminated-tail":              {map[string]bool{"changedFilesParse": false}, "parse-error"},
+		"clean-without-artefacts":                               {map[string]bool{"hasMarkers": false}, ""},
+		"clean-without-artefacts-dot-file-in-package-directory": {map[string]bool{"hasMarkers": false}, ""},
 	}
 	flagOrder := []string{"goMod", "dotGit", "configExists", "configParses", "configValid", "force", "initFlagsValid", "generatedExists", "isInit",
 		"worktreeClean", "oldResolves", "newResolves", "newIsHead", "changedFilesParse", "hasMain", "hasPoints", "hasMarkers"}
